@@ -365,7 +365,10 @@ def rand_step(rng, model, dims, kinds):
     if kind == "scale":
         return kind, {"factor": rand_factor(rng, nd), "reference_point": rand_ref(rng, model.box, nd)}
     a, b = rng.choice(nd, 2, replace=False)
-    return "rotate90", {"ax1": dims[int(a)], "ax2": dims[int(b)], "k": int(rng.integers(-9, 10)),
+    k = int(rng.integers(-9, 10))
+    if rng.random() < 0.2:
+        k = gen.pick(rng, [np.int64, np.int32])(k)  # an integer is an integer
+    return "rotate90", {"ax1": dims[int(a)], "ax2": dims[int(b)], "k": k,
                         "reference_point": rand_ref(rng, model.box, nd)}
 
 
@@ -379,7 +382,7 @@ def apply_model(model, kind, kw, dims):
         model.scale(np.full(nd, float(f)) if np.isscalar(f) else np.asarray(f, float),
                     kw["reference_point"])
     else:
-        model.rotate(dims.index(kw["ax1"]), dims.index(kw["ax2"]), kw["k"], kw["reference_point"])
+        model.rotate(dims.index(kw["ax1"]), dims.index(kw["ax2"]), int(kw["k"]), kw["reference_point"])
 
 
 def history(ctx, obj, model, dims, kinds, target=None, label="region"):
@@ -566,6 +569,10 @@ def malformed_table(nd, dims, rng):
             ("rotate90", {"ax1": a, "ax2": b, "reference_point": "abcd"[:nd]}),
             ("rotate90", {"ax1": a, "ax2": b, "reference_point": 5}),
             ("rotate90", {"ax1": a, "ax2": b, "reference_point": ["a"] * nd}),
+            ("rotate90", {"ax1": a, "ax2": b, "reference_point": [1 + 2j] + [0.0] * (nd - 1)}),
+            ("rotate90", {"ax1": a, "ax2": b, "reference_point": [0.0] * (nd - 1) + [None]}),
+            # a bad element on an axis that is not rotated (3-d and higher)
+            ("rotate90", {"ax1": dims[0], "ax2": dims[1], "reference_point": [0.0] * (nd - 1) + ["a"]}),
         ]
     else:
         t += [("rotate90", {"ax1": dims[0], "ax2": dims[0]}),
